@@ -13,13 +13,13 @@ Op(o) == IF o = "create" THEN "create/pods" ELSE IF o = "deljob" THEN "delete/jo
 Proj(l) ==
     IF l.a = "Kubelet" THEN [a |-> "Kubelet", i |-> l.i, r |-> l.r, x |-> Phase(l.x)]
     ELSE IF l.a \in {"KubeletGone", "NodeDown", "ExternalDelete"} THEN [a |-> l.a, i |-> l.i, r |-> l.r]
-    ELSE IF l.a = "UserKill" THEN [a |-> "UserKill", d |-> l.d]
+    ELSE IF l.a \in {"UserKill", "UserRekill"} THEN [a |-> l.a, d |-> l.d]
     ELSE IF l.a = "Step" THEN [a |-> "Step", x |-> Op(l.op), f |-> l.f]
     ELSE [a |-> l.a]
 SInit == Init /\ sched = <<>>
 \* bias (a filter inside the next-state relation): the user and the crash only interfere once the Job has tasks,
 \* so that uniformly random simulation spends its steps on task life cycles rather than on deleting an idle Job
-Bias == last'.a \in {"UserDelete", "UserKill", "CrashRestart", "NodeDown", "ExternalDelete"} => (ever # {} /\ Len(sched) >= 8)
+Bias == last'.a \in {"UserDelete", "UserKill", "UserRekill", "CrashRestart", "NodeDown", "ExternalDelete"} => (ever # {} /\ Len(sched) >= 8)
 \* digest of the state after the step: the replay driver compares it with the projection of the real state
 Exp == [ex |-> job'.ex, fin |-> job'.kind = "Finished", res |-> job'.result, pods |-> Cardinality(Mine(pods')),
         refs |-> Cardinality({s \in Slots : job'.refs[s].ex}), dl |-> Cardinality({s \in Mine(pods') : pods'[s].dl # 0})]
